@@ -379,6 +379,7 @@ class HSFZTransport(BaseTransport, scheme="hsfz"):
         )
 
     async def close(self) -> None:
+        self.is_closed = True
         await self._conn.close()
 
     async def read(
